@@ -94,10 +94,14 @@ StatReusable(a, b) == a.res = b.res /\ a.cap = b.cap /\ a.dur = b.dur
 
 \* buckets a (re)loaded rule may continue with: those of an equal old rule; for a changed rule
 \* those of an old rule with the same duration/capacity (handed over by the code) or none
-BucketChoices(r) ==
+\* `same`: the rules of r's resource after the load are, as a set under rule equality, the ones before it
+\* (the case the property speaks about).  If another rule of the resource changed in the same call the
+\* code may hand an old rule's statistics to the changed one and rebuild the unchanged one: either way.
+BucketChoices(r, same) ==
     LET eq == {o \in hot : SameRule(o, r)}
         ru == {o \in hot : StatReusable(o, r)}
-    IN  IF eq # {} THEN {bk[o.id] : o \in eq} ELSE {<<>>} \cup {bk[o.id] : o \in ru}
+    IN  IF eq # {} /\ same THEN {bk[o.id] : o \in eq} ELSE {<<>>} \cup {bk[o.id] : o \in ru}
+SameSets(A, B) == (\A a \in A : \E b \in B : SameRule(a, b)) /\ (\A b \in B : \E a \in A : SameRule(a, b))
 
 LoadHot(ev) ==
     /\ ev.e = "load" /\ ev.fam = "hot" /\ ev.op \in {"all", "res"}
@@ -113,8 +117,9 @@ LoadHot(ev) ==
        /\ order' \in [ress -> UNION {Perms({r.id : r \in {x \in all : x.res = rs}}) : rs \in ress}]
        /\ \A rs \in ress : /\ SeqToSet(order'[rs]) = {r.id : r \in {x \in all : x.res = rs}}
                            /\ Len(order'[rs]) = Cardinality({x \in all : x.res = rs})
-       /\ bk' \in [{r.id : r \in all} -> UNION ({BucketChoices(r) : r \in new} \cup {{bk[r.id]} : r \in keep})]
-       /\ \A r \in new : bk'[r.id] \in BucketChoices(r)
+       /\ LET same(r) == SameSets({o \in hot : o.res = r.res}, {x \in all : x.res = r.res}) IN
+          /\ bk' \in [{r.id : r \in all} -> UNION ({BucketChoices(r, same(r)) : r \in new} \cup {{bk[r.id]} : r \in keep})]
+          /\ \A r \in new : bk'[r.id] \in BucketChoices(r, same(r))
        /\ \A r \in keep : bk'[r.id] = bk[r.id]
     /\ UNCHANGED on
 
